@@ -50,6 +50,9 @@ func (c *CircuitFixed) Define(api frontend.API) error {
 		publicInputLimb := frontend.Variable(0)
 		slicePub := publicInputs[j*4 : (j+1)*4]
 		for i := 0; i < 4; i++ {
+			// The limbs only reach the inner statement reduced modulo the Goldilocks prime, so
+			// without a width check limb + k*p would pack into a different public value.
+			verifierChip.glChip.RangeCheckWithMaxBits(slicePub[i], 32)
 			pubU32 := slicePub[i].Limb
 			pubByte := frontend.Variable(new(big.Int).SetUint64(1 << 32))
 			publicInputLimb = api.Add(pubU32, api.Mul(pubByte, publicInputLimb))
